@@ -43,7 +43,7 @@ def classes_of(lines):
     return sorted(cl)
 
 
-VALUED_SPELLINGS = ("-o", "--out", "--level", "-s", "--speed", "-m", "--mode", "--depth", "--allow")
+VALUED_SPELLINGS = ("-o", "--out", "--level", "-s", "--speed", "-m", "--mode", "--depth", "--allow", "-d", "--out-dir")
 
 
 def k12_dangling_value(argv):
